@@ -244,10 +244,14 @@ class IngestSuite(Suite):
                 ps = (f["map"] or {}).get(r["peptide"], []) if remap else r["proteins"]
                 if not ps:
                     continue
+                if case["fmt"] == "DIA-NN":
+                    # the report carries one decoy flag per row: set iff every listed protein is a decoy; identifiers are bare
+                    dec = all(q.startswith("REV__") for q in ps)
+                    ps = [q if dec else (q[5:] if q.startswith("REV__") else q) for q in ps]
                 if r["peptide"] not in owner or r["pep"] < owner[r["peptide"]][0]:
                     owner[r["peptide"]] = (r["pep"], norm(ps))
         for k, (s, ps) in got.items():
-            if case["fmt"] != "DIA-NN" and k in owner and norm(ps) != owner[k][1]:
+            if k in owner and norm(ps) != owner[k][1]:
                 return "best-pep-stored-with-the-proteins-of-another-psm"
         return None
 
